@@ -5,6 +5,9 @@ widths, control flow (if / elif / for with all range forms / temporaries), bitst
 packed arrays), hierarchy (sub-components to depth 3, arrays of sub-components, interfaces, arrays of
 interfaces, structural connections incl. slices and constants) and sequential logic.
 
+Two grid families enumerate shape classes systematically instead of sampling them: "nd" (array-like construct
+x dimensionality x access mode; see nd_design) and "lv" (use of a loop variable x range form; see fam_lv).
+
   design(family, index, seed_tag) -> (name, source, meta) deterministic for fixed VERIF_SEED
   FAMILIES                                               names of the families
 The name encodes family, index and the main parameters: violation keys are built from it.
@@ -720,7 +723,7 @@ def fam_misc(R, idx):
 # --------------------------------------------------------------------------------------
 
 ND_CONSTRUCTS = ["port", "wire", "pfield", "pfwire", "pftmp", "sfield", "ifc", "ifcnest", "ifcport", "comp", "comphet",
-                 "compifc", "compport", "ffwire", "constarr"]
+                 "compifc", "compport", "ffwire", "constarr", "sport"]
 ND_DIMS = {1: [(3,), (4,)], 2: [(2, 3), (3, 2)], 3: [(2, 3, 2), (3, 2, 2), (2, 2, 3)]}
 
 
@@ -783,6 +786,9 @@ class _NDBase:
     def extra(s):           # (decl lines, blocks, sigs): whole-value traffic etc.
         return [], [], {}
 
+    def wr_stmt(s, name, ix, rhs):      # an update-block assignment of `rhs` (Bits<w>) to element ix
+        return "%s @= %s" % (s.wr(name, ix), rhs)
+
 
 class _NDPort(_NDBase):
     def _arr(s, name, kind):
@@ -799,6 +805,32 @@ class _NDPort(_NDBase):
         return "s.%s%s" % (name, _sub(ix))
 
     wr = rd
+
+
+class _NDSPort(_NDPort):
+    """array of struct-typed ports: fields read one by one, elements written as whole structs (update blocks)
+    and by field (connect statements)"""
+
+    def __init__(s, ctx, dims, w):
+        _NDBase.__init__(s, ctx, dims, w)
+        ctx.globals_.append("@bitstruct\nclass NPt:\n  x: Bits%d\n  y: Bits3\n" % w)
+
+    def _arr(s, name, kind):
+        pre, post = _nest(s.dims)
+        return ["s.%s = %s%s( NPt )%s" % (name, pre, kind, post)]
+
+    def rd(s, name, ix):
+        return "s.%s%s.x" % (name, _sub(ix))
+
+    wr = rd
+
+    def wr_stmt(s, name, ix, rhs):
+        return "s.%s%s @= NPt( %s, s.fi[0][2:5] )" % (name, _sub(ix), rhs)
+
+    def post_wr(s, name, mode):
+        if mode == "n":
+            return ["s.%s%s.y //= s.fi[%d][2:5]" % (name, _sub(ix), _flat(s.dims, ix)) for ix in _elems(s.dims)]
+        return []
 
 
 class _NDWire(_NDPort):
@@ -1074,7 +1106,7 @@ class _NDConstArr(_NDBase):
         return "s.%s%s" % (name, _sub(ix))
 
 
-_ND_CLS = {"port": _NDPort, "wire": _NDWire, "pfield": _NDPField, "pfwire": _NDPFWire, "pftmp": _NDPFTmp, "sfield": _NDSField,
+_ND_CLS = {"sport": _NDSPort, "port": _NDPort, "wire": _NDWire, "pfield": _NDPField, "pfwire": _NDPFWire, "pftmp": _NDPFTmp, "sfield": _NDSField,
            "ifc": _NDIfc, "ifcnest": _NDIfcNest, "ifcport": _NDIfcPort, "comp": _NDComp, "comphet": _NDCompHet,
            "compifc": _NDCompIfc, "compport": _NDCompPort, "ffwire": _NDFFWire, "constarr": _NDConstArr}
 _LOOPV = ["i", "j", "k"]
@@ -1148,13 +1180,13 @@ def nd_design(R, cons, nd):
     def writer(inst, mode):
         fe = _flat_expr(dims, lv)
         if mode == "c":
-            wblock("up_wc", ["%s @= s.fi[%d] + %d" % (C.wr(inst, ix), _flat(dims, ix), cst(_flat(dims, ix) + 3)) for ix in es]
+            wblock("up_wc", [C.wr_stmt(inst, ix, "s.fi[%d] + %d" % (_flat(dims, ix), cst(_flat(dims, ix) + 3))) for ix in es]
                    + C.post_wr(inst, mode))
         elif mode == "l":
-            wblock("up_wl", [loops(["%s @= s.fi[%s] + ( %s )" % (C.wr(inst, lv), fe, fe)])] + C.post_wr(inst, mode))
+            wblock("up_wl", [loops([C.wr_stmt(inst, lv, "s.fi[%s] + ( %s )" % (fe, fe))])] + C.post_wr(inst, mode))
         elif mode == "v":
-            wblock("up_wv", ["%s @= %d" % (C.wr(inst, ix), cst(_flat(dims, ix) + 5)) for ix in es]
-                   + guarded("%s @= s.fi[0]" % C.wr(inst, sel), "") + C.post_wr(inst, mode))
+            wblock("up_wv", [C.wr_stmt(inst, ix, "Bits%d( %d )" % (w, cst(_flat(dims, ix) + 5))) for ix in es]
+                   + guarded(C.wr_stmt(inst, sel, "s.fi[0]"), "") + C.post_wr(inst, mode))
         else:
             for ix in es:
                 decl.append(conn(C.wr(inst, ix), "s.fi[%d]" % _flat(dims, ix)))
